@@ -3,7 +3,7 @@ From Coq Require Import NArith ZArith List Bool String.
 From ZV.Codec Require Import Bytes XXH64 Fse Huf Block Frame.
 From ZV.Gen Require Import Gen_Tables Gen_C03.
 From ZV.Safety Require Import DDictHashSet DDictHashSetProofs RTotal ROutput RBound RCopy REntropy NoProgress NoProgressProofs Witnesses Consts LitBuffer LitBufferProofs RingBuffer RingBufferProofs
-  Continuity ContinuityProofs CtxPointers CtxPointersProofs.
+  Continuity ContinuityProofs CtxPointers CtxPointersProofs DictOwner DictOwnerProofs.
 Import ListNotations.
 Local Open Scope N_scope.
 
@@ -300,6 +300,39 @@ Theorem C03_ctx_pointers_copy_refuted :
   prun true [Begin 1; Copy 2 1; Block 2 Repeat Repeat Repeat Repeat] 2 = Some (Own 2, Own 2, Own 2, Own 2).
 Proof. exact ctx_pointers_copy_refuted. Qed.
 Print Assumptions C03_ctx_pointers_copy_refuted.
+
+(* ---- ZSTD_copyDCtx: a context never uses a dictionary another context owns (round 3) ---- *)
+(* the fields ddictLocal (owned) / ddict (non-owning) / dictUses of a decoding context, over EVERY history of ZSTD_createDCtx, ZSTD_DCtx_loadDictionary,
+   ZSTD_DCtx_refPrefix, ZSTD_DCtx_refDDict, clearing, the ZSTD_getDDict of a frame, ZSTD_freeDCtx and ZSTD_copyDCtx between any contexts:
+   with the copy of fix 555a48a (a current dictionary the SOURCE owns is not inherited) no frame ever dereferences a released DDict *)
+Theorem C03_dict_owner_safe : forall os, drun_ok true d_init os = true.
+Proof. exact dict_owner_safe. Qed.
+Print Assumptions C03_dict_owner_safe.
+
+(* as a property of every reachable state: a current dictionary that is a context-created DDict is the context's OWN ddictLocal, and it is live *)
+Theorem C03_dict_owner_current_is_own : forall os c f h,
+  d_ctx (fold_left (fun s o => fst (dstep true s o)) os d_init) c = Some f -> d_cur f = DLocal h ->
+  d_local f = Some h /\ ~ In h (d_freed (fold_left (fun s o => fst (dstep true s o)) os d_init)).
+Proof. exact dict_owner_current_is_own. Qed.
+Print Assumptions C03_dict_owner_current_is_own.
+
+(* the verbatim copy (finding C03-copydctx-ddict-pointer-into-source): load / refPrefix on context 1, copy to context 2, free context 1 or let it load
+   another dictionary, decode on context 2 : the frame reads the released DDict number 0; the repaired copy decodes without dictionary *)
+Theorem C03_dict_owner_copy_refuted :
+  drun_ok false d_init [DCreate 1; DCreate 2; DLoad 1; DCopy 2 1; DFree 1; DUse 2] = false /\
+  drun_ok false d_init [DCreate 1; DCreate 2; DPrefix 1; DCopy 2 1; DLoad 1; DUse 2] = false /\
+  snd (dstep false (fold_left (fun s o => fst (dstep false s o)) [DCreate 1; DCreate 2; DLoad 1; DCopy 2 1; DFree 1] d_init) (DUse 2)) = DLocal 0 /\
+  snd (dstep true (fold_left (fun s o => fst (dstep true s o)) [DCreate 1; DCreate 2; DLoad 1; DCopy 2 1; DFree 1] d_init) (DUse 2)) = DNull.
+Proof. exact dict_owner_copy_refuted. Qed.
+Print Assumptions C03_dict_owner_copy_refuted.
+
+(* not vacuous: a DDict of the caller IS inherited by the copy and used after the source is gone; an own dictionary serves its owner after the copy is gone *)
+Example C03_dict_owner_example :
+  let os := [DCreate 1; DCreate 2; DRef 1 7; DCopy 2 1; DFree 1; DUse 2] in
+  drun_ok false d_init os = true /\ drun_ok true d_init os = true /\
+  snd (dstep true (fold_left (fun s o => fst (dstep true s o)) [DCreate 1; DCreate 2; DRef 1 7; DCopy 2 1; DFree 1] d_init) (DUse 2)) = DExt 7 /\
+  snd (dstep true (fold_left (fun s o => fst (dstep true s o)) [DCreate 1; DCreate 2; DLoad 1; DCopy 2 1; DFree 2] d_init) (DUse 1)) = DLocal 0.
+Proof. exact dict_owner_example. Qed.
 
 (* ---- the limits of the model are the limits of the current sources ---- *)
 Theorem C03_gen_consts_match_model :
